@@ -330,16 +330,26 @@ type cellKey struct {
 }
 
 type marks struct {
-	mask map[cellKey]uint64
-	nan  map[cellKey]isaspec.Mark
+	mask   map[cellKey]uint64
+	nan    map[cellKey]isaspec.Mark
+	alt    map[cellKey]uint32
+	altNaN map[cellKey]int
 }
 
 func indexMarks(ms []isaspec.Mark) marks {
-	m := marks{mask: map[cellKey]uint64{}, nan: map[cellKey]isaspec.Mark{}}
+	m := marks{mask: map[cellKey]uint64{}, nan: map[cellKey]isaspec.Mark{}, alt: map[cellKey]uint32{}, altNaN: map[cellKey]int{}}
 	for _, x := range ms {
 		k := cellKey{x.Kind, x.Index, x.Lane, x.Addr}
 		if x.Kind != isaspec.CellVGPR {
 			k.lane = 0
+		}
+		if x.AltNaN != 0 {
+			m.altNaN[k] = x.AltNaN
+			continue
+		}
+		if x.HasAlt {
+			m.alt[k] = x.Alt
+			continue
 		}
 		if x.NaN != 0 {
 			m.nan[k] = x
@@ -371,6 +381,9 @@ func compare(ref *isaspec.State, st0 *isaspec.State, r implResult, c *ICase) str
 	}
 	chk32 := func(k cellKey, name string, got, want, before uint32) {
 		if got == want {
+			return
+		}
+		if a, ok := mk.alt[k]; ok && got == a {
 			return
 		}
 		if nm, ok := mk.nan[k]; ok {
@@ -413,6 +426,17 @@ func compare(ref *isaspec.State, st0 *isaspec.State, r implResult, c *ICase) str
 				continue
 			}
 			k := cellKey{kind: isaspec.CellVGPR, index: rg, lane: l}
+			// known-finding alternatives "any NaN"
+			if mk.altNaN[k] == 32 && isaspec.IsNaN32(got) {
+				continue
+			}
+			if mk.altNaN[k] == 64 && rg < 255 && isaspec.IsNaN64(uint64(binary.LittleEndian.Uint32(row[4*(rg+1):]))<<32|uint64(got)) {
+				continue
+			}
+			if rg > 0 && mk.altNaN[cellKey{kind: isaspec.CellVGPR, index: rg - 1, lane: l}] == 64 &&
+				isaspec.IsNaN64(uint64(got)<<32|uint64(binary.LittleEndian.Uint32(row[4*(rg-1):]))) {
+				continue
+			}
 			// a 64-bit NaN is marked on the low register of the pair
 			if rg > 0 {
 				if nm, ok := mk.nan[cellKey{kind: isaspec.CellVGPR, index: rg - 1, lane: l}]; ok && nm.NaN == 64 {
@@ -894,6 +918,18 @@ func TestRegressInsts(t *testing.T) {
 func init() {
 	prev := replayOther
 	replayOther = func(t *testing.T, stage string) {
+		if stage == "regress-getpc" {
+			var c getpcCase
+			ok, err := stats.LoadReplay(&c)
+			if !ok {
+				t.Skip("no VERIF_REPLAY")
+			}
+			if err != nil {
+				t.Fatal(err)
+			}
+			stats.Record(t, c, runGetPC(c))
+			return
+		}
 		if stage != "insts" && stage != "regress-insts" {
 			if prev != nil {
 				prev(t, stage)
